@@ -10,7 +10,7 @@ From V.lib Require Import Base.
 From V.c05 Require Import C05Model C05FragModel C05CodecModel.
 From V.c12 Require C12Model.
 From V.c02 Require Import C02AggModel C02AggSizeProofs C02AggOptProofs C02AggFragProofs C02AggFileProofs
-  C02AggPureProofs C02AggC12Proofs C02AggSencModel C02AggSencProofs C02AggExamples.
+  C02AggPureProofs C02AggC12Proofs C02AggScanProofs C02AggSencModel C02AggSencProofs C02AggExamples.
 
 (* ---- bytes written = Size() afterwards = sum of the box lengths; every top-level box header is right;
         Size() beforehand is the same when trun optimisation is off; well-formedness is kept *)
@@ -54,6 +54,27 @@ Theorem C02_file : forall f f' boxes,
   (afile_quiet f = true -> afile_size f = afile_size f') /\ afile_wf f' = true.
 Proof. exact file_size. Qed.
 Print Assumptions C02_file.
+
+(* ---- the reader's view: following the size fields from the first byte of the output (`scan`: a size field below 8
+        or beyond the end is a failure) recovers exactly the boxes written - no gap, no overlap, nothing left over *)
+Theorem C02_scan : forall boxes, all_ok boxes -> scan (length boxes) (concat boxes) = Some boxes.
+Proof. exact scan_all_ok. Qed.
+Print Assumptions C02_scan.
+
+Theorem C02_fragment_scan : forall fr fr' boxes, afrag_encode fr = (fr', Ok boxes) -> afrag_wf fr = true ->
+  scan (length boxes) (concat boxes) = Some boxes.
+Proof. exact fragment_scan. Qed.
+Print Assumptions C02_fragment_scan.
+
+Theorem C02_segment_scan : forall s s' boxes, aseg_encode s = (s', Ok boxes) -> aseg_wf s = true ->
+  scan (length boxes) (concat boxes) = Some boxes.
+Proof. exact segment_scan. Qed.
+Print Assumptions C02_segment_scan.
+
+Theorem C02_file_scan : forall f f' boxes, afile_encode f = (f', Ok boxes) -> afile_wf f = true ->
+  scan (length boxes) (concat boxes) = Some boxes.
+Proof. exact file_scan. Qed.
+Print Assumptions C02_file_scan.
 
 (* ---- the two state changes of Encode reach a fixed point *)
 Theorem C02_optimize_idem : forall tf tr tf' tr',
